@@ -370,7 +370,7 @@ Proof.
   - eexists. split; [reflexivity|]. intros q. rewrite pred_iff. split.
     + destruct (nth_error hs p) as [h|] eqn:En; [|intros []].
       destruct (pred_matches pr h) eqn:Em; [|intros []].
-      intros [<-|[]]. apply nth_error_Some_lt in En || idtac.
+      intros [<-|[]].
       assert (p < length hs) by (apply nth_error_Some; congruence).
       split; [lia|]. exists h. split; [apply seg_single, En|apply pred_matches_iff, Em].
     + intros (Hb & h & Ew & Hs). destruct (seg_single_inv hs p q h Hb Ew) as (-> & En).
